@@ -199,3 +199,36 @@ def fits_cases(rng, features=None, focus=None):
                 'features': doc['features']}
         out.append((line, meta, list(doc['features']) + [f'items{min(len(items), 9)}']))
     return out
+
+
+# ---------------------------------------------------------------------------------------------
+# deterministic families (harness/families.py)
+
+def family_cases(prop_id, rng=None, fraction=1.0):
+    """-> (known ids, [(kind, line, meta)]) for every document of the families: one `conserve` case per document
+    and one `fits` case per page."""
+    import json
+    from harness import families
+    from vlib.paths import CORPUS
+    path = CORPUS / prop_id / 'family_known.json'
+    known = json.loads(path.read_text()) if path.exists() else {'conserve': [], 'fits': []}
+    cases = []
+    for doc_id, html, groups in families.all_documents():
+        if rng is not None and rng.random() > fraction:
+            continue
+        try:
+            document = docs.render(html)
+        except Exception as exc:  # noqa: BLE001
+            cases.append(('error', None, {'doc_id': doc_id, 'html': html, 'error': type(exc).__name__}))
+            continue
+        pages = widegen.page_words(document)
+        line = sx.line('conserve', [[KIND[g['kind']], g['words']] for g in groups], pages)
+        cases.append(('conserve', line, {'doc_id': doc_id, 'html': html, 'groups': groups, 'pages': pages,
+                                         'features': ['family']}))
+        for index, page in enumerate(document.pages):
+            bottom, items = fit_items(page)
+            cases.append(('fits', sx.line('fits', bottom, [[b, f] for b, f in items]),
+                          {'doc_id': f'{doc_id}#p{index}', 'html': html, 'page_index': index, 'bottom': str(bottom),
+                           'items': [[str(b), f] for b, f in items], 'kinds': list(fit_items.kinds),
+                           'features': ['family']}))
+    return known, cases
